@@ -424,8 +424,8 @@ func (g *vfGW) validatorFn(vc vfValCfg) ValidatorEx {
 			verdict = v
 		}
 		gated := vc.Gated
-		if from == g.n.id() {
-			gated = false // a local publication validates synchronously in the caller: never park it
+		if from == g.n.id() && g.cfg.Extra["park_local"] == "" {
+			gated = false // a local publication validates synchronously in the caller: only park it when the caller is not the explorer
 		}
 		if gated && len(vc.GateOnly) > 0 {
 			gated = false
